@@ -57,6 +57,16 @@ CHECKS = {
         "metadata. Trusted: vf/oracle/jsvalid.py (cross-checked), CrossHair, z3.",
         design="4/C06",
     ),
+    "C07": dict(
+        text="For each program and each global setting combination (settings.serialization.exclude_defaults / exclude_none, "
+        "aliaser, additional_properties) the serialization schema is generated concretely by the real builder; every "
+        "well-typed value within bounds (leaves symbolic, constraints of the type assumed) is serialized by the compiled "
+        "method tree under CrossHair and the output is judged by the JSON Schema evaluator: it must validate (which "
+        "includes: every emitted key declared or allowed, every required key emitted).",
+        note="Classes with unset-tracking are excluded as the statement says. Evaluator cross-checked against jsonschema on "
+        "realised outputs. Settings are set once per job in a private process.",
+        design="4/C07",
+    ),
 }
 
 NOT_YET = "check not built yet at this commit (work in progress, see DESIGN.md section 4)"
